@@ -201,8 +201,16 @@ def rule_MK4(ctx, rep):
     gated = bool(rec) and not cond.satisfiable(cond.conj([cond.context(fo, rec[0], pm), cond.neg(member)]))
     if gated and all(('In', 'R', 'receivers') in cases[sorted(cases)[0]][id(r)] for r in recvs):
         rep.ok('MK4', fo, rec[0], 'shares are collected and recombined only by receivers')
-        nones = [s_ for s_ in iter_nodes(fo.node) if isinstance(s_, ast.Assign) and isinstance(s_.value, ast.BinOp) and isinstance(s_.value.op, ast.Mult)
-                 and norm(s_.value.left) == '[None]' and cond.equivalent(cond.project(cond.context(fo, s_, pm), lambda a: 'receivers' in a), cond.neg(member))]
+        def none_valued(v):
+            """[None] * k, None, or a conditional expression choosing between such values"""
+            if isinstance(v, ast.IfExp):
+                return none_valued(v.body) and none_valued(v.orelse)
+            if isinstance(v, ast.Constant) and v.value is None:
+                return True
+            return isinstance(v, ast.BinOp) and isinstance(v.op, ast.Mult) and '[None]' in (norm(v.left), norm(v.right))
+        nones = [s_ for s_ in iter_nodes(fo.node) if isinstance(s_, (ast.Assign, ast.Return)) and s_.value is not None and none_valued(s_.value)
+                 and not (isinstance(s_.value, ast.Constant))
+                 and cond.equivalent(cond.project(cond.context(fo, s_, pm), lambda a: 'receivers' in a), cond.neg(member))]
         if nones:
             rep.ok('MK4', fo, nones[0], 'non-receivers obtain None for every element')
         else:
